@@ -443,7 +443,11 @@ class WrapperMixin(object):
         """
         output.append(self.doxygen_begin)
         if "brief" in docs:
-            output.append(self.doxygen_cont + " \\brief %s" % docs["brief"])
+            # Prefix every line of the user's text.
+            lines = str(docs["brief"]).rstrip("\n").split("\n")
+            output.append(self.doxygen_cont + " \\brief " + lines[0])
+            for line in lines[1:]:
+                output.append(self.doxygen_cont + " " + line)
             output.append(self.doxygen_cont)
         if "description" in docs:
             desc = docs["description"]
@@ -456,7 +460,10 @@ class WrapperMixin(object):
                 output.append(self.doxygen_cont + " " + line)
         if "return" in docs:
             output.append(self.doxygen_cont)
-            output.append(self.doxygen_cont + " \\return %s" % docs["return"])
+            lines = str(docs["return"]).rstrip("\n").split("\n")
+            output.append(self.doxygen_cont + " \\return " + lines[0])
+            for line in lines[1:]:
+                output.append(self.doxygen_cont + " " + line)
         output.append(self.doxygen_end)
 
     def document_stmts(self, output, ast, stmt0, stmt1):
